@@ -691,6 +691,29 @@ pub fn call_serve(
     r.map(|resp| (resp, before, after)).map_err(|_| ())
 }
 
+/// Canonical `name=value` list (sorted; Date/Last-Modified as `@secs`) of a header map, and the
+/// clock value read off the `Date` header.
+pub fn canon_headers(h: &HeaderMap) -> (Vec<(String, String)>, u64) {
+    let mut now = 0;
+    let mut headers: Vec<(String, String)> = h
+        .iter()
+        .map(|(k, v)| {
+            let n = k.as_str().to_string();
+            if n == "date" || n == "last-modified" {
+                if let DateH::Secs(s) = classify_date(v.as_bytes()) {
+                    if n == "date" {
+                        now = s;
+                    }
+                    return (n, format!("@{}", s));
+                }
+            }
+            (n, hex(v.as_bytes()))
+        })
+        .collect();
+    headers.sort_by(|a, b| format!("{}={}", a.0, a.1).cmp(&format!("{}={}", b.0, b.1)));
+    (headers, now)
+}
+
 /// Observe the response to `q` on a fresh copy of `e`: status, headers, entity calls, and the
 /// body plan (for multipart harvested from an honest reference drain).
 pub fn observe_serve(q: &HReq, e0: &HEntity) -> Observed {
